@@ -923,16 +923,43 @@ func (e *Exec) stepGo(fr *frame, st *State, in *ssa.Go) {
 }
 
 func (e *Exec) stepSend(fr *frame, st *State, in *ssa.Send) {
-	// ghost history of the channel: sequence of sent values, kept per channel
-	// cell name; used by C18's ChunkIterator contract.
+	// A channel is not modelled as a data structure. What a function sends is
+	// constrained by the `onsend requires` clauses of its contract and recorded
+	// in ghost variables by `ghostset ... onsend` (`value` is the sent value).
 	x := e.tval(fr, st, in.X)
-	key := "sent$" + sanitize(in.Chan.Name())
-	_ = x
-	cnt := st.ghost[key+"$n"]
-	if cnt.T == "" {
-		cnt = Val{T: "0", S: sInt}
+	x.GoT = in.X.Type()
+	if fr != e.topFrame || fr.spec == nil {
+		e.note("%s: channel send in an inlined function: not checked", e.w.pos(in.Pos()))
+		return
 	}
-	st.ghost[key+"$n"] = Val{T: add(cnt.T, "1"), S: sInt}
+	mkenv := func() *SpecEnv {
+		env := e.specEnv(fr, st, nil)
+		for k, v := range fr.entryParams {
+			if _, isLocal := fr.locals[k]; !isLocal {
+				env.vars[k] = v
+			}
+		}
+		env.vars["value"] = x
+		return env
+	}
+	for _, c := range fr.spec.OnSend {
+		v := mkenv().eval(c.E)
+		e.oblige(fr, st, "send", "channel send satisfies "+c.Src, in.Pos(), v.T)
+	}
+	for _, gs := range fr.spec.GhostSets {
+		if gs.OnStore != "@send" {
+			continue
+		}
+		g, ok := e.ss.GhostVars[gs.Var]
+		if !ok {
+			e.specErrors = append(e.specErrors, "ghostset: unknown ghost variable "+gs.Var)
+			continue
+		}
+		env := mkenv()
+		v := env.eval(gs.E)
+		env.ghostVar(g)
+		e.setHeap(st, "G$"+gs.Var, v.T)
+	}
 }
 
 var _ = strings.Join
